@@ -194,7 +194,7 @@ CHECKS = {
           'The property itself is established by exploration: every target (repository programs + generated programs stressing DEFtype ranges, labels, literals, DATA, SUB/FUNCTION, SHARED, CONST, TYPE; six configurations) is observed in a pristine interpreter with hash seed 0 and again under other hash seeds, after histories of other compilations in the same process (incl. failing programs and the same program at another level), in another cwd, later, in a fresh interpreter, with two Compiler instances alive, in a thread, with machines run repeatedly and interleaved tick by tick; '
           'sections 1-4, listing, debug-map offsets, event trace, outcome and tick count must equal the single reference, and the reference run must equal the extracted machine model.'),
     design_ref='DESIGN.md 5/C20',
-    note=('Trusted: Coq kernel, ExtrOcamlBasic, OCaml driver, Python harness. That a Gallina function has no hidden inputs is meta-theory, so the theorem content is thin; coverage of hash seeds, histories and schedules is finite. Out of scope: the debug section (gzip+pickle) as bytes, OS signal delivery, real-time devices (scripted).'),
+    note=('Trusted: Coq kernel, ExtrOcamlBasic, OCaml driver, Python harness. That a Gallina function has no hidden inputs is meta-theory, so the theorem content is thin; coverage of hash seeds, histories and schedules is finite. The quick tier is a VERIF_SEED-rotating sample of the thorough one (every target under one of four other hash seeds, a sixth to a half of the targets per perturbation, one ordered pair per same-name variant family, a third of the dead-code programs under two hash seeds: about 1500 observations, 5 minutes); the thorough tier runs every target under every perturbation, all ordered pairs and all dead-code programs under eight hash seeds. Out of scope: the debug section (gzip+pickle) as bytes, OS signal delivery, real-time devices (scripted).'),
     technique='Rocq proofs over small Gallina models + differential testing of the implementation against itself under perturbed environments and against the extracted machine model'),
 }
 
